@@ -221,21 +221,28 @@ pub fn run_events(srv: &mut Srv, evs: &[Ev], nsock: usize, capture_log: bool) ->
                 let sock = clients[s].sock.try_clone().expect("clone socket");
                 let addr = srv.addr;
                 let b2 = b.clone();
-                let t_inject = now_us();
+                let mut t_inject = now_us();
                 let fired = std::rc::Rc::new(std::cell::Cell::new(false));
+                let fired_at = std::rc::Rc::new(std::cell::Cell::new(0u64));
                 let f2 = fired.clone();
+                let fa2 = fired_at.clone();
                 let want = POINTS[pt as usize];
                 roughenough::verif::set_callback(Some(Box::new(move |kind, _| {
                     if kind == want && !f2.get() {
                         f2.set(true);
+                        // the request's send time is the moment it is sent: inside the step
+                        fa2.set(now_us());
                         let _ = sock.send_to(&b2, addr);
                     }
                 })));
                 let r = srv.step();
                 roughenough::verif::set_callback(None);
-                if !fired.get() {
+                if fired.get() {
+                    t_inject = fired_at.get();
+                } else {
                     // the point was not passed in this step (e.g. nothing was pending): the arrival
                     // happens right after the step instead
+                    t_inject = now_us();
                     clients[s].send(srv.addr, &b);
                 }
                 sent.push(Sent { sock: s, version: Some(v), bytes: b, t_sent_us: t_inject });
